@@ -28,9 +28,16 @@ package main
 // Oracle (independent of the model):
 //   FreshBytes + ReusedBytes == total size of the new files; FreshBytes == data bytes found in the
 //   decoded patch; ReusedBytes == bytes addressed by the decoded block ranges; identical builds =>
-//   FreshBytes == 0 and no DATA op with bytes; a new file whose content equals an old file's
-//   content (same path, renamed, duplicated) has no DATA op with bytes; a file derived from an old
+//   FreshBytes == 0 and no op with data bytes; a new file whose content equals an old file's
+//   content (same path, renamed, duplicated) has no op with data bytes; a file derived from an old
 //   high-entropy file by k localized edits carries at most introduced + (2k+2)*64KiB data bytes.
+//   "Data bytes of the patch" are measured on the patch itself, not on the op kinds the differ
+//   means to use: the Data field of EVERY message of a file's op stream counts (a BLOCK_RANGE
+//   message that carries a payload re-sends bytes just as a DATA message does, and is reported
+//   as such), and so does whatever else a message carries beyond the fields of its kind (encoded
+//   size of the message minus its Data > c08OpOverhead, e.g. unknown fields). The acct group reads
+//   back the messages makeOpsWriter wrote for an arbitrary op list and demands the same: every
+//   message has the kind / range fields / data of the op it was given and a range message no data.
 
 import (
 	"bytes"
@@ -40,6 +47,7 @@ import (
 	"path/filepath"
 	"strings"
 
+	"github.com/golang/protobuf/proto"
 	"github.com/itchio/lake"
 	"github.com/itchio/lake/pools/fspool"
 	"github.com/itchio/lake/tlc"
@@ -56,8 +64,13 @@ func init() { register("C08", runC08) }
 type c08Op struct {
 	Range             bool
 	File, Index, Span int64
-	DataLen           int64
+	DataLen           int64 // bytes of the Data field, whatever the kind of the message
+	Extra             int64 // encoded size of the message beyond its Data field
 }
+
+// c08OpOverhead bounds the encoded size of a SyncOp message without its payload: four varint
+// fields (1 tag byte + at most 10 bytes each) and tag + length of the Data field (1 + 5).
+const c08OpOverhead = 4*11 + 6
 
 // c08Decode reads the op stream of an (unoptimized) patch.
 func c08Decode(patch []byte) (tc, sc *tlc.Container, files [][]c08Op, err error) {
@@ -102,11 +115,13 @@ func c08Decode(patch []byte) (tc, sc *tlc.Container, files [][]c08Op, err error)
 			if op.Type == pwr.SyncOp_HEY_YOU_DID_IT {
 				break
 			}
+			dl := int64(len(op.Data))
+			extra := int64(proto.Size(op)) - dl
 			switch op.Type {
 			case pwr.SyncOp_BLOCK_RANGE:
-				ops = append(ops, c08Op{Range: true, File: op.FileIndex, Index: op.BlockIndex, Span: op.BlockSpan})
+				ops = append(ops, c08Op{Range: true, File: op.FileIndex, Index: op.BlockIndex, Span: op.BlockSpan, DataLen: dl, Extra: extra})
 			case pwr.SyncOp_DATA:
-				ops = append(ops, c08Op{DataLen: int64(len(op.Data))})
+				ops = append(ops, c08Op{DataLen: dl, Extra: extra})
 			default:
 				err = fmt.Errorf("file %d: op of type %d", i, op.Type)
 				return
@@ -296,9 +311,22 @@ func c08CheckPair(c *Ctx, name string, old, nw *lib.Build, cfg c08Cfg, expect *c
 	}
 	perFile := map[string]int64{}
 	nData := 0
+	smuggled := ""
 	for i, ops := range files {
 		var fd int64
-		for _, o := range ops {
+		for j, o := range ops {
+			// what the patch carries is measured on the messages themselves: the payload of any message,
+			// and anything a message holds beyond the fields of its kind
+			fd += o.DataLen
+			if o.DataLen > 0 {
+				nData++
+			}
+			if smuggled == "" && o.Range && o.DataLen > 0 {
+				smuggled = fmt.Sprintf("file %s: operation %d is a block range (old file %d, blocks %d+%d) that carries %d data bytes", sc.Files[i].Path, j, o.File, o.Index, o.Span, o.DataLen)
+			}
+			if smuggled == "" && o.Extra > c08OpOverhead {
+				smuggled = fmt.Sprintf("file %s: operation %d is encoded in %d bytes beyond its %d data bytes (a sync operation has at most %d)", sc.Files[i].Path, j, o.Extra, o.DataLen, c08OpOverhead)
+			}
 			if o.Range {
 				if o.File < 0 || o.File >= int64(len(tc.Files)) {
 					return obs, fmt.Sprintf("file %d: block range names old file %d of %d", i, o.File, len(tc.Files)), nil
@@ -312,18 +340,16 @@ func c08CheckPair(c *Ctx, name string, old, nw *lib.Build, cfg c08Cfg, expect *c
 					hi = sz
 				}
 				rangeBytes += hi - lo
-			} else {
-				fd += o.DataLen
-				if o.DataLen > 0 {
-					nData++
-				}
 			}
 		}
 		dataBytes += fd
 		perFile[sc.Files[i].Path] = fd
 	}
 	obs["dataOps"] = nData
+	obs["patchDataBytes"] = dataBytes
 	switch {
+	case smuggled != "":
+		oracle = fmt.Sprintf("%s; FreshBytes %d, data bytes in the patch %d", smuggled, dr.Fresh, dataBytes)
 	case dr.Fresh+dr.Reused != total:
 		oracle = fmt.Sprintf("FreshBytes %d + ReusedBytes %d = %d, the new files have %d bytes", dr.Fresh, dr.Reused, dr.Fresh+dr.Reused, total)
 	case dr.Fresh != dataBytes:
@@ -620,6 +646,32 @@ func c08Corpus(c *Ctx) error {
 			Input: map[string]interface{}{"old": b.Summary(), "new": b.Summary(), "relations": []string{"identical"}, "compression": none.String(), "oldSignature": cfg.sigName()},
 			Obs:   obs, Oracle: oracle})
 	}
+	// a file with one 100-byte overwrite is diffed first, then an unchanged file, two duplicates and a
+	// renamed file (seeded C08-9: every block range written after a data operation carried that
+	// operation's payload again - only the messages of the patch show it, the counters do not)
+	{
+		fa, fb, fc := r.Bytes(5*lib.BS+7), r.Bytes(4*lib.BS+9), r.Bytes(3*lib.BS)
+		fa2, intro, how := c08EditAt(r, fa, 0, 2*lib.BS+500, 100)
+		old, nw := &lib.Build{}, &lib.Build{}
+		for _, e := range []struct {
+			b    *lib.Build
+			p    string
+			data []byte
+		}{{old, "a.bin", fa}, {old, "b.bin", fb}, {old, "c.bin", fc},
+			{nw, "a.bin", fa2}, {nw, "c.bin", fc}, {nw, "copy-of-b.bin", fb}, {nw, "copy-of-c.bin", fc}, {nw, "renamed.bin", fb}} {
+			e.b.Put(lib.Entry{Path: e.p, Kind: "file", Data: e.data})
+		}
+		exp := &c08Expect{bound: map[string]int64{"a.bin": int64(intro + 4*lib.BS)}, why: map[string]string{"a.bin": "1 edit introducing 100 bytes: " + how}}
+		cfg := c08Cfg{comp: none, prevComp: none}
+		obs, oracle, err := c08CheckPair(c, "c08c-after-data", old, nw, cfg, exp)
+		if err != nil {
+			return err
+		}
+		c.Out.Emit(&lib.Case{Class: "corpus/reused-files-after-an-edited-file", Nontrivial: true,
+			Input: map[string]interface{}{"files": []string{"a.bin " + how, "c.bin kept", "b.bin -> copy-of-b.bin, renamed.bin", "c.bin -> copy-of-c.bin"},
+				"old": old.Summary(), "new": nw.Summary(), "compression": none.String(), "oldSignature": cfg.sigName()},
+			Obs: obs, Oracle: oracle})
+	}
 	// one 1000-byte insertion at offset 100000 of a file of 24 MiB + 12345 bytes (seeded C08-1: the
 	// window was not carried over when the buffer wraps, one more block re-sent per wrap)
 	data := r.Bytes(24*c08MiB + 12345)
@@ -721,6 +773,48 @@ func c08SmallEdits(c *Ctx, r *lib.Rng, n int) error {
 
 // ---------- "acct" group: makeOpsWriter's counters ----------
 
+// c08WrittenOps reads back the length-prefixed SyncOp messages makeOpsWriter wrote for ops and
+// says how they differ from the operations given ("" = they do not). When the writer stopped
+// early (complete == false) the messages written so far are held against the first operations.
+func c08WrittenOps(buf []byte, ops []wsync.Operation, complete bool) string {
+	k := 0
+	for ; len(buf) > 0; k++ {
+		l, n := proto.DecodeVarint(buf)
+		if n == 0 || uint64(len(buf)-n) < l {
+			return fmt.Sprintf("message %d of the operation stream is truncated", k)
+		}
+		m := &pwr.SyncOp{}
+		if err := proto.Unmarshal(buf[n:n+int(l)], m); err != nil {
+			return fmt.Sprintf("message %d of the operation stream cannot be decoded", k)
+		}
+		buf = buf[n+int(l):]
+		if k >= len(ops) {
+			return fmt.Sprintf("%d operations given, more messages written", len(ops))
+		}
+		o := ops[k]
+		switch o.Type {
+		case wsync.OpBlockRange:
+			if m.Type != pwr.SyncOp_BLOCK_RANGE || m.FileIndex != o.FileIndex || m.BlockIndex != o.BlockIndex || m.BlockSpan != o.BlockSpan {
+				return fmt.Sprintf("operation %d is range file %d blocks %d+%d, written as %s file %d blocks %d+%d", k, o.FileIndex, o.BlockIndex, o.BlockSpan, m.Type, m.FileIndex, m.BlockIndex, m.BlockSpan)
+			}
+			if len(m.Data) != 0 {
+				return fmt.Sprintf("operation %d is a block range, its message carries %d data bytes", k, len(m.Data))
+			}
+		case wsync.OpData:
+			if m.Type != pwr.SyncOp_DATA || !bytes.Equal(m.Data, o.Data) {
+				return fmt.Sprintf("operation %d is data of %d bytes, written as %s with %d bytes (equal: %v)", k, len(o.Data), m.Type, len(m.Data), bytes.Equal(m.Data, o.Data))
+			}
+		}
+		if extra := int64(int(l) - len(m.Data)); extra > c08OpOverhead {
+			return fmt.Sprintf("operation %d is encoded in %d bytes beyond its %d data bytes (a sync operation has at most %d)", k, extra, len(m.Data), c08OpOverhead)
+		}
+	}
+	if complete && k != len(ops) {
+		return fmt.Sprintf("%d operations given, %d messages written", len(ops), k)
+	}
+	return ""
+}
+
 func c08Acct(c *Ctx, r *lib.Rng, n int) error {
 	for i := 0; i < n; i++ {
 		cr := r.Fork()
@@ -743,7 +837,7 @@ func c08Acct(c *Ctx, r *lib.Rng, n int) error {
 		for k := 0; k < nops; k++ {
 			if cr.Chance(1, 3) {
 				l := cr.Range(0, 300)
-				ops = append(ops, wsync.Operation{Type: wsync.OpData, Data: make([]byte, l)})
+				ops = append(ops, wsync.Operation{Type: wsync.OpData, Data: cr.Bytes(l)})
 				opsCoq = append(opsCoq, fmt.Sprintf("AD %d", l))
 				opsJ = append(opsJ, c11OpJ{Kind: "data", Len: l})
 				continue
@@ -770,7 +864,8 @@ func c08Acct(c *Ctx, r *lib.Rng, n int) error {
 			opsJ = append(opsJ, c11OpJ{Kind: "range", File: int64(f), Index: idx, Span: span})
 		}
 		dctx := &pwr.DiffContext{TargetContainer: tc}
-		cls, msg := lib.Guard(func() error { return pwr.VerifAccountOps(dctx, io.Discard, ops) })
+		var written bytes.Buffer
+		cls, msg := lib.Guard(func() error { return pwr.VerifAccountOps(dctx, &written, ops) })
 		// oracle: in-bounds op lists account for exactly the bytes they denote
 		oracle := ""
 		if cls == "panic" && !outOfRange {
@@ -798,6 +893,12 @@ func c08Acct(c *Ctx, r *lib.Rng, n int) error {
 			if inb && (wantR != dctx.ReusedBytes || wantF != dctx.FreshBytes) {
 				oracle = fmt.Sprintf("counters reused %d fresh %d, the operations denote reused %d fresh %d", dctx.ReusedBytes, dctx.FreshBytes, wantR, wantF)
 			}
+		}
+		// oracle: the messages written are the operations given - a range message names the blocks of
+		// its operation and carries no payload, a data message carries the bytes of its operation (the
+		// counters above are about these messages: fresh = payload sent, reused = bytes addressed)
+		if oracle == "" {
+			oracle = c08WrittenOps(written.Bytes(), ops, cls == "ok")
 		}
 		obsCoq := fmt.Sprintf("Some (%s, %s)", lib.CoqZ(dctx.ReusedBytes), lib.CoqZ(dctx.FreshBytes))
 		if cls != "ok" {
